@@ -62,6 +62,15 @@ Proof.
   destruct (N.eqb_spec (sR s / 2 ^ (rSB c - rWB c)) 0) as [E|_]; [rewrite E in Hd; exfalso; apply (N.nle_succ_0 0); exact Hd|reflexivity].
 Qed.
 
+(* RangeEncoder::clear (as repaired, finding F18): the cleared encoder IS a new encoder, so it
+   refines the initial specification state and every theorem about fresh encoders (round trip,
+   stream format, sizes) applies to messages encoded after clear() *)
+Theorem C02_range_clear_is_new : forall c e, renc_clear c e = renc_new c.
+Proof. reflexivity. Qed.
+
+Theorem C02_range_clear_refines_init : forall c e, wf_rcfg c -> Renc c (renc_clear c e) (spec_init c).
+Proof. intros c e Hc. rewrite C02_range_clear_is_new. apply renc_new_refines. Qed.
+
 (* ------------------------------------------------------------------ C08 *)
 Theorem C08_range_guard_pure : forall c e view e', sit_wf (e_sit e) ->
   renc_get_compressed c e = ROk (view, e') -> e' = e /\ renc_into_compressed c e = ROk view.
@@ -164,6 +173,8 @@ Print Assumptions C07_range_seek_end.
 Print Assumptions C07_range_seek_refused.
 Print Assumptions C07_range_pos.
 Print Assumptions C07_range_snapshot_rebuildable.
+Print Assumptions C02_range_clear_is_new.
+Print Assumptions C02_range_clear_refines_init.
 Print Assumptions C08_range_guard_pure.
 Print Assumptions C08_range_guard_total.
 Print Assumptions C09_range_impossible_rejected.
